@@ -25,6 +25,11 @@ def _dag(rng, n, shape):
     elif shape == "fanout":
         for i in range(1, n):
             deps[names[i]] = [names[0]]
+    elif shape == "tri":
+        # triples A <- B, {A, B} <- C: a job with two blockers one of which depends on the other
+        for i in range(0, n - 2, 3):
+            deps[names[i + 1]] = [names[i]]
+            deps[names[i + 2]] = [names[i], names[i + 1]]
     elif shape == "two":
         h = max(1, n // 2)
         for i in range(1, h):
